@@ -224,6 +224,9 @@ class Section(Error):
             return True
         except ValueError as exc:
             return self.error.set(str(exc))
+        except OSError as exc:
+            # socket.inet_pton reports a malformed IP address with OSError rather than ValueError
+            return self.error.set(f'invalid IP address ({exc})')
 
     # Schema-based methods
 
